@@ -108,10 +108,14 @@ const (
 	KPurge   = 2 // 1 = purge the pool before this Get
 	KMapOrd  = 3 // permutation index of the key order; 0 = canonical
 	KUser    = 4 // harness-defined (fault carriers, signal instants ...)
-	nKinds   = 5
+	KStall   = 5 // at a synchronisation point: c>0 = the task stalls until the other tasks have passed c synchronisation points
+	nKinds   = 6
 )
 
-var kindNames = [nKinds]string{"sched", "pool_get", "purge", "map_order", "user"}
+var kindNames = [nKinds]string{"sched", "pool_get", "purge", "map_order", "user", "stall"}
+
+// MaxStall is the longest stall, in synchronisation points passed by the other tasks.
+const MaxStall = 24
 
 func KindName(k int) string { return kindNames[k] }
 
@@ -130,6 +134,7 @@ type Rates struct {
 	Recycle float64 `json:"recycle"` // probability that a Get recycles when idle objects exist
 	Purge   float64 `json:"purge"`   // probability that a Get is preceded by a purge
 	Shuffle float64 `json:"shuffle"` // probability that a map range uses a non-canonical order
+	Stall   float64 `json:"stall,omitempty"` // probability that a task stalls at a synchronisation point (atomic operation, pool Get/Put, lock)
 }
 
 const maxKeys = 4096 // per-kind key space (sites, pools, user keys)
@@ -169,6 +174,8 @@ type World struct {
 	nlive   int32
 	multi   bool
 	curTask int32
+	// syncCount counts the synchronisation points passed by all tasks: the time axis of stalls
+	syncCount uint64
 }
 
 type Event struct {
@@ -185,6 +192,8 @@ type taskState struct {
 	stack   []byte
 	// blockedOn is the intercepted synchronisation object (simrt.Mutex, ...) this task waits for; nil = runnable
 	blockedOn unsafe.Pointer
+	// stallUntil != 0: the task is stalled (a slow thread: preempted for long) until syncCount reaches it
+	stallUntil uint64
 }
 
 var world *World
@@ -628,6 +637,9 @@ func (p *Pool) Idle() int { return len(p.idle) }
 
 //go:norace
 func (p *Pool) Get() any {
+	if w := world; w != nil && w.multi {
+		Sync(-1) // a pool operation is a synchronisation point of the original code
+	}
 	p.register()
 	w := world
 	p.Gets++
@@ -692,6 +704,9 @@ func randPoolGet(w *World, n uint64) uint64 {
 
 //go:norace
 func (p *Pool) Put(x any) {
+	if w := world; w != nil && w.multi {
+		Sync(-1)
+	}
 	p.register()
 	if x == nil {
 		return
@@ -763,7 +778,7 @@ func (w *World) yield() {
 	// candidates: runnable (started, not done) tasks other than me
 	n := 0
 	for i := range w.tasks {
-		if int32(i) != me && !w.tasks[i].done && w.tasks[i].blockedOn == nil {
+		if int32(i) != me && !w.tasks[i].done && w.tasks[i].blockedOn == nil && w.tasks[i].stallUntil == 0 {
 			n++
 		}
 	}
@@ -776,7 +791,7 @@ func (w *World) yield() {
 	}
 	k := int(c)
 	for i := range w.tasks {
-		if int32(i) != me && !w.tasks[i].done && w.tasks[i].blockedOn == nil {
+		if int32(i) != me && !w.tasks[i].done && w.tasks[i].blockedOn == nil && w.tasks[i].stallUntil == 0 {
 			k--
 			if k == 0 {
 				w.passTurn(int32(i))
@@ -923,12 +938,16 @@ func taskDone(w *World, id int32) {
 //
 //go:norace
 func (w *World) passToRunnable() {
-	n, live := 0, 0
+	n, live, stalled := 0, 0, 0
 	for i := 1; i < len(w.tasks); i++ {
 		if !w.tasks[i].done {
 			live++
 			if w.tasks[i].blockedOn == nil {
-				n++
+				if w.tasks[i].stallUntil != 0 {
+					stalled++
+				} else {
+					n++
+				}
 			}
 		}
 	}
@@ -936,11 +955,21 @@ func (w *World) passToRunnable() {
 		w.passTurn(0)
 		return
 	}
+	if n == 0 && stalled > 0 {
+		// nobody else can run: the stalls end early
+		for i := 1; i < len(w.tasks); i++ {
+			if !w.tasks[i].done && w.tasks[i].blockedOn == nil {
+				w.tasks[i].stallUntil = 0
+			}
+		}
+		n = stalled
+	}
 	if n == 0 {
 		w.Deadlocked = true
 		for i := 1; i < len(w.tasks); i++ {
 			if !w.tasks[i].done {
 				w.tasks[i].blockedOn = nil // they wake up, see Deadlocked and panic
+				w.tasks[i].stallUntil = 0
 			}
 		}
 		n = live
@@ -951,7 +980,7 @@ func (w *World) passToRunnable() {
 	}
 	k := int(c)
 	for i := 1; i < len(w.tasks); i++ {
-		if !w.tasks[i].done && w.tasks[i].blockedOn == nil {
+		if !w.tasks[i].done && w.tasks[i].blockedOn == nil && w.tasks[i].stallUntil == 0 {
 			if k == 0 {
 				w.passTurn(int32(i))
 				return
@@ -959,6 +988,67 @@ func (w *World) passToRunnable() {
 			k--
 		}
 	}
+}
+
+// Sync marks a synchronisation point of the code under test: inserted before every statement that
+// performs a sync/atomic operation (rewrite R7) and called by the simulated pools and locks. Under
+// the scheduler it is a yield point like Step and, in addition, the place where the "stalled task"
+// fault strikes: the running task may be frozen - as a thread preempted for long is - until the
+// other tasks have passed a chosen number of synchronisation points; it then resumes at once, in
+// front of the other task's next synchronisation operation. Lock-free algorithms fail in exactly
+// these windows (a compare-and-swap that succeeds on a recycled value).
+//
+//go:norace
+func Sync(site int) {
+	w := world
+	if w == nil {
+		return
+	}
+	w.event('Y', uint64(int64(site)), 0)
+	if w.Budget != 0 && w.Events > w.Budget {
+		w.Blown = true
+		panic(ErrBudget)
+	}
+	if !w.multi {
+		return
+	}
+	w.syncCount++
+	me := w.curTask
+	others := 0
+	for i := 1; i < len(w.tasks); i++ {
+		t := &w.tasks[i]
+		if int32(i) == me || t.done || t.blockedOn != nil {
+			continue
+		}
+		if t.stallUntil != 0 {
+			if t.stallUntil <= w.syncCount {
+				// its stall is over: it continues now, before this task's operation
+				t.stallUntil = 0
+				w.passTurn(int32(i))
+				w.waitTurn(me)
+				return
+			}
+			continue
+		}
+		others++
+	}
+	if others > 0 {
+		if c := w.choose(KStall, 0, MaxStall+1, randStall); c > 0 {
+			w.tasks[me].stallUntil = w.syncCount + c
+			w.passToRunnable()
+			w.waitTurn(me)
+			return
+		}
+	}
+	w.yield()
+}
+
+//go:norace
+func randStall(w *World, n uint64) uint64 {
+	if !w.rng.Chance(w.Rates.Stall) {
+		return 0
+	}
+	return 1 + w.rng.Uint64()%(n-1)
 }
 
 // block parks the running task until obj is released (intercepted synchronisation).
@@ -1025,6 +1115,7 @@ func (m *Mutex) setHeld(v bool) { m.held = v }
 
 func (m *Mutex) Lock() {
 	if w := Active(); w != nil && multi(w) {
+		Sync(-2)
 		for m.isHeld() {
 			w.block(unsafe.Pointer(m))
 		}
@@ -1070,6 +1161,7 @@ func (m *RWMutex) set(writer bool, dr int) { m.writer = writer; m.readers += dr 
 
 func (m *RWMutex) Lock() {
 	if w := Active(); w != nil && multi(w) {
+		Sync(-2)
 		for {
 			wr, rd := m.state()
 			if !wr && rd == 0 {
@@ -1092,6 +1184,7 @@ func (m *RWMutex) Unlock() {
 
 func (m *RWMutex) RLock() {
 	if w := Active(); w != nil && multi(w) {
+		Sync(-2)
 		for {
 			wr, _ := m.state()
 			if !wr {
